@@ -45,7 +45,8 @@ m = dict(
                   kind_free_text="TLA+ specifications in spec/ (property-level <M>.tla, implementation-shaped MC_<M>.tla, "
                                  "Trace_<M>.tla), TLC, Rust conformance harness in harness/, python driver lib/vcheck.py")],
     checks=checks,
-    notes="Exit 0 = held, 1 = VIOLATION line + replay file, 2 = tool error. Known findings: known_findings.json. "
+    notes="Behaviour beyond the listed properties is specified and checked the same way under ids X01, X02, ... "
+          "(`./check extra`; evidence/X*.json); these are not claims about listed properties. Exit 0 = held, 1 = VIOLATION line + replay file, 2 = tool error. Known findings: known_findings.json. "
           "VERIF_SEED selects samples and random histories. Results are reused only for a bit-identical harness binary, "
           "specification, tier and seed (VERIF_NOCACHE=1 disables).",
     not_applicable=na)
